@@ -269,6 +269,17 @@ func intentDepositQsr(h *Hist) bool {
 	from := h.user("dq.from")
 	ct := depositContract(h, "dq.contract")
 	amt := []*big.Int{big.NewInt(1), zq(int64(c.Int("dq.amt", 1, 1000))), zq(50000), zq(150000)}[c.Pick("dq.kind", 4)]
+	if c.Weighted("dq.exact", 1, 1) == 1 {
+		// what is still missing for the next registration (the cost of a pillar grows with their number)
+		need := new(big.Int).Set(constants.SentinelQsrDepositAmount)
+		if ct == types.PillarContract {
+			need = h.pillarCost()
+		}
+		need.Sub(need, h.deposit(ct, from))
+		if need.Sign() > 0 {
+			amt = need
+		}
+	}
 	if h.Balance(from, types.QsrTokenStandard).Cmp(amt) < 0 {
 		return false
 	}
@@ -281,8 +292,41 @@ func intentWithdrawQsr(h *Hist) bool {
 	return h.call(from, ct, types.ZnnTokenStandard, big.NewInt(0), definition.ABICommon.PackMethodPanic(definition.WithdrawQsrMethodName), ContractNames[ct]+".WithdrawQsr()")
 }
 
+// deposit returns the QSR a user has deposited in the pillar or sentinel contract (pool frontier).
+func (h *Hist) deposit(ct, a types.Address) *big.Int {
+	d, err := definition.GetQsrDeposit(h.A.Chain.GetFrontierAccountStore(ct).Storage(), &a)
+	if err != nil || d == nil || d.Qsr == nil {
+		return new(big.Int)
+	}
+	return new(big.Int).Set(d.Qsr)
+}
+
+// pillarCost is the QSR the next pillar registration consumes.
+func (h *Hist) pillarCost() *big.Int {
+	list, err := definition.GetPillarsList(h.A.Chain.GetFrontierAccountStore(types.PillarContract).Storage(), true, definition.NormalPillarType)
+	if err != nil {
+		return new(big.Int).Set(constants.PillarQsrStakeBaseAmount)
+	}
+	cost := new(big.Int).Mul(constants.PillarQsrStakeIncreaseAmount, big.NewInt(int64(len(list))))
+	return cost.Add(cost, constants.PillarQsrStakeBaseAmount)
+}
+
+// depositor picks a user whose deposit in ct covers need (most of the time, if there is one), else any user.
+func (h *Hist) depositor(label string, ct types.Address, need *big.Int) types.Address {
+	var ok []types.Address
+	for _, u := range h.Users {
+		if h.deposit(ct, u).Cmp(need) >= 0 {
+			ok = append(ok, u)
+		}
+	}
+	if len(ok) > 0 && h.C.Weighted(label+".funded", 1, 4) == 1 {
+		return ok[h.C.Pick(label+".fundedIdx", len(ok))]
+	}
+	return h.user(label)
+}
+
 func intentSentinelRegister(h *Hist) bool {
-	from := h.user("sr.from")
+	from := h.depositor("sr.from", types.SentinelContract, constants.SentinelQsrDepositAmount)
 	if h.Balance(from, types.ZnnTokenStandard).Cmp(constants.SentinelZnnRegisterAmount) < 0 {
 		return false
 	}
@@ -410,12 +454,27 @@ func intentHtlcProxy(h *Hist) bool {
 
 func intentPillarRegister(h *Hist) bool {
 	c := h.C
-	from := h.user("pr.from")
+	from := h.depositor("pr.from", types.PillarContract, h.pillarCost())
 	if h.Balance(from, types.ZnnTokenStandard).Cmp(constants.PillarStakeAmount) < 0 {
 		return false
 	}
 	name := fmt.Sprintf("VP-new-%d", c.Int("pr.name", 0, 5))
 	prod := h.user("pr.prod")
+	if c.Weighted("pr.freeProducer", 1, 3) == 1 {
+		// a producing address no pillar uses yet
+		used := map[types.Address]bool{}
+		if list, err := definition.GetPillarsList(h.A.Chain.GetFrontierAccountStore(types.PillarContract).Storage(), false, definition.AnyPillarType); err == nil {
+			for _, p := range list {
+				used[p.BlockProducingAddress] = true
+			}
+		}
+		for _, u := range h.Users {
+			if !used[u] {
+				prod = u
+				break
+			}
+		}
+	}
 	reward := h.user("pr.reward")
 	data := definition.ABIPillars.PackMethodPanic(definition.RegisterMethodName, name, prod, reward, uint8(c.Int("pr.give1", 0, 100)), uint8(c.Int("pr.give2", 0, 100)))
 	return h.call(from, types.PillarContract, types.ZnnTokenStandard, new(big.Int).Set(constants.PillarStakeAmount), data,
@@ -487,7 +546,11 @@ func intentVote(h *Hist) bool {
 	pi := c.Pick("vt.pillar", len(h.W.Spec.Pillars))
 	ps := h.W.Spec.Pillars[pi]
 	from := PillarKey(ps.Key).Address
-	data := definition.ABICommon.PackMethodPanic(definition.VoteByNameMethodName, id, ps.Name, uint8(c.Int("vt.vote", 0, 3)))
+	vote := uint8(c.Int("vt.vote", 0, 3))
+	if c.Weighted("vt.yes", 1, 2) == 1 {
+		vote = definition.VoteYes // enough of them make the project (or its phase) pass at the next update
+	}
+	data := definition.ABICommon.PackMethodPanic(definition.VoteByNameMethodName, id, ps.Name, vote)
 	return h.call(from, types.AcceleratorContract, types.ZnnTokenStandard, big.NewInt(0), data, fmt.Sprintf("accelerator.VoteByName(%s, %s)", id.String()[:8], ps.Name))
 }
 
